@@ -392,7 +392,7 @@ func c06(raw json.RawMessage) interface{} {
 			in = append(in, text...)
 		}
 		in = append(in, bytesOf(c.Input)...)
-		rd, err := sam.NewReader(bytes.NewReader(in))
+		rd, err := sam.NewReader(textSource(in))
 		if err != nil {
 			return map[string]interface{}{"newreader_err": err.Error()}
 		}
